@@ -77,7 +77,7 @@ def check(ctx, args):
                 rp = pipelib.save_replay(ctx, d, os.path.basename(d) + "_" + psid,
                                          {"program": os.path.basename(d), "schedule": sched,
                                           "detail": pipelib.coq_detail(ctx, d, psid + ".obs")})
-                ctx.fail("job_set_differs_from_semantics", os.path.basename(d), {"replay_dir": os.path.dirname(rp)})
+                ctx.fail(pipelib.classify_mismatch(ctx, d, psid + ".obs") or "job_set_differs_from_semantics", os.path.basename(d), {"replay_dir": os.path.dirname(rp)})
     ctx.oblige("trace acceptance + job-set comparison ran on every completed run (%d histories, %d comparisons)" % (ntr, ncmp),
                okc and ntr > 0 and ntr == ncmp)
     ctx.samples = [{"history_prefix": evs[:10]} for (_, _, evs) in cases[:2]] if ntr else []
